@@ -339,7 +339,9 @@ static bool run_op(const std::vector<std::string>& w, Buf& c, Buf& t, long& dC, 
     else { bool thrown = false; TSIDE(try { W[h]->fit(f.data, f.w, f.coords, f.ord, f.knots, f.smooth, f.pord, f.monodim, false); } catch (...) { thrown = true; }); t.add(thrown ? "throw" : "ok"); }
     ndsparse_free(&f.data);
   } else if (op == "grideval") {
-    const Table* tw = W[h]; if (tw && tw->ndim == 0) return false;
+    // an object without data: grideval of the C++ core dereferences the (null) arrays unless it checks ndim first; the
+    // script asks for this call ("empty-ok") only when the core has that check (bin/props/C18.py: empty_grideval_defined)
+    const Table* tw = W[h]; if (tw && tw->ndim == 0 && !(w.size() > 4 && w[4] == "empty-ok")) return false;
     int s = atoi(w[2].c_str()); Rng r(strtoull(w[3].c_str(), nullptr, 10));
     if (!tw || !ch) {   // no object behind the handle (or no handle): the guard must answer, *result must be NULL
       double dummy = 0; const double* cp1[1] = {&dummy}; uint32_t nc1[1] = {1}; int rc; struct ndsparse* res = (struct ndsparse*)0x1;
@@ -354,6 +356,7 @@ static bool run_op(const std::vector<std::string>& w, Buf& c, Buf& t, long& dC, 
       for (int k = 0; k < n; k++) co[i].push_back(lo + (hi - lo) * (k + 0.5) / n);
       cp[i] = co[i].data(); nc[i] = n;
     }
+    if (nd == 0) { cp.reserve(1); nc.reserve(1); }   // non-null (empty) argument arrays
     int rc; struct ndsparse* res = (struct ndsparse*)0x1;
     CSIDE(rc = splinetable_grideval(ch, cp.data(), nc.data(), &res));
     c.add("%s", rc_status(rc));
